@@ -216,7 +216,8 @@ def unlocated_variants(ctx, schema, text, located_ast, full):
 
 
 def check_unlocated(ctx, schema, base, stream, label, text, located_ast, located_status, located_msgs):
-    full = stream == "fixed" or bool(ctx.n(0, 1))          # quick: all three variants for the fixed cases, one at random otherwise
+    # all three variants for the fixed cases (and for 4 in 10 documents of the thorough tier), one at random otherwise
+    full = stream == "fixed" or (bool(ctx.n(0, 1)) and ctx.rng.random() < 0.4)
     try:
         variants = unlocated_variants(ctx, schema, text, located_ast, full)
     except Exception as e:  # noqa
